@@ -30,10 +30,17 @@ import (
 )
 
 const (
-	verifDir = "/verif"
-	repoDir  = "/repo"
-	goBin    = "/opt/veriftools/go1.26.8/bin"
+	repoDir = "/repo"
+	goBin   = "/opt/veriftools/go1.26.8/bin"
 )
+
+// verifDir is /verif unless VERIF_DIR is set (background runs from a snapshot).
+var verifDir = func() string {
+	if d := os.Getenv("VERIF_DIR"); d != "" {
+		return d
+	}
+	return "/verif"
+}()
 
 var instrPkgs = []string{
 	"./pkg/edition/java/proxy", "./pkg/edition/java/netmc", "./pkg/edition/java/lite",
